@@ -1,6 +1,6 @@
-(** C42: proofs, part 4: mustBeBaseBody.  A must-be-base body that has a tree-eligible joint to Ground (given, or
-    added in step 1 of generateGraph because it had no joint to Ground at all) ends at level 1, or else was mobilized
-    by the massless-chain extension outboard of a body that is not massful (DESIGN 7.19 pattern (ii)). *)
+(** C42: proofs, part 4: mustBeBaseBody.  Step 1 of generateGraph gives every must-be-base body a tree-eligible joint to
+    Ground (a given one, or an added free joint); the body then ends at level 1, or else was mobilized by the
+    massless-chain extension outboard of a body that is not massful (DESIGN 7.19 pattern (ii)). *)
 From Coq Require Import List ZArith Bool Arith Lia.
 Import ListNotations.
 Require Import C42_Model C42_Proofs C42_Fuel.
@@ -15,22 +15,19 @@ Hypothesis b_pos : b <> 0.
 Definition link (J : list joint) (jn : nat) : Prop :=
   (jpar (nth jn J jd) = 0 /\ jchi (nth jn J jd) = b) \/ (jpar (nth jn J jd) = b /\ jchi (nth jn J jd) = 0).
 Definition groundLink (J : list joint) (jn : nat) : Prop := jn < length J /\ jloop (nth jn J jd) = false /\ link J jn.
-Definition noLink (J : list joint) : Prop := forall jn, jn < length J -> ~ link J jn.
 
 Lemma groundLink_snoc J x jn : groundLink J jn -> groundLink (J ++ [x]) jn.
 Proof.
   intros (H1 & H2 & H3). unfold groundLink, link in *. rewrite app_length, app_nth1 by auto. repeat split; auto. lia.
 Qed.
 
-Lemma connected_false J : noLink J -> connected J b 0 = false.
+Lemma treeJoint_true J : treeJointToGround J b = true -> exists jn, groundLink J jn.
 Proof.
-  intros H. unfold connected. apply orb_false_iff. split.
-  - destruct (existsb _ (jointsAsParent J b)) eqn:E; auto. exfalso.
-    apply existsb_exists in E. destruct E as (jn & H1 & H2). apply in_asParent in H1. destruct H1 as [H1 H3].
-    apply Nat.eqb_eq in H2. apply (H jn H1). right. auto.
-  - destruct (existsb _ (jointsAsChild J b)) eqn:E; auto. exfalso.
-    apply existsb_exists in E. destruct E as (jn & H1 & H2). apply in_asChild in H1. destruct H1 as [H1 H3].
-    apply Nat.eqb_eq in H2. apply (H jn H1). left. auto.
+  unfold treeJointToGround. intros H. apply orb_true_iff in H. destruct H as [H|H];
+    apply existsb_exists in H; destruct H as (jn & H1 & H2); apply andb_true_iff in H2; destruct H2 as [H2 H3];
+    apply Nat.eqb_eq in H2; apply negb_true_iff in H3; exists jn.
+  - apply in_asParent in H1. destruct H1 as [H1 H4]. repeat split; auto. right. auto.
+  - apply in_asChild in H1. destruct H1 as [H1 H4]. repeat split; auto. left. auto.
 Qed.
 
 (* ------------------------------------------------------------------ step 1 provides the Ground joint *)
@@ -43,34 +40,20 @@ Proof.
 Qed.
 
 Lemma precheck_link : baseOf B b = true -> forall bns J J',
-  ((exists jn, groundLink J jn) \/ noLink J) -> precheck T B bns J = Ok J' ->
-  ((exists jn, groundLink J' jn) \/ noLink J') /\ (In b bns -> exists jn, groundLink J' jn).
+  In b bns -> precheck T B bns J = Ok J' -> exists jn, groundLink J' jn.
 Proof.
-  intros Hbase. induction bns as [|bn r IH]; simpl; intros J J' HQ H.
-  - inv H. split; auto. intros [].
-  - assert (Hsnoc : forall x, x <> b -> ((exists jn, groundLink J jn) \/ noLink J) ->
-                    ((exists jn, groundLink (J ++ [baseJoint x]) jn) \/ noLink (J ++ [baseJoint x]))).
-    { intros x Hx [(jn & HG)|HN]; [left; exists jn; apply groundLink_snoc; auto|].
-      right. intros jn Hjn. rewrite app_length in Hjn. simpl in Hjn. unfold link.
-      destruct (Nat.lt_ge_cases jn (length J)).
-      - rewrite app_nth1 by auto. apply HN; auto.
-      - assert (jn = length J) by lia. subst jn. rewrite app_nth2, Nat.sub_diag by auto. simpl. intros [[_ E]|[E _]]; congruence. }
-    destruct (Nat.eq_dec bn b) as [->|Hne].
-    + (* the body itself *)
-      match type of H with match ?bad with _ => _ end = _ => destruct bad; [discriminate|] end.
-      match type of H with (if ?c then _ else _) = _ => destruct c eqn:Ec end.
-      * assert (HG : exists jn, groundLink (J ++ [baseJoint b]) jn).
-        { exists (length J). unfold groundLink, link. rewrite app_length, app_nth2, Nat.sub_diag by auto. simpl.
-          repeat split; auto. lia. }
-        pose proof (precheck_link_mono _ _ _ HG H). split; auto.
-      * assert (HG : exists jn, groundLink J jn).
-        { destruct HQ as [HG|HN]; auto. exfalso. rewrite Hbase, (connected_false J HN) in Ec. simpl in Ec.
-          rewrite orb_true_r in Ec. discriminate. }
-        pose proof (precheck_link_mono _ _ _ HG H). split; auto.
-    + match type of H with match ?bad with _ => _ end = _ => destruct bad; [discriminate|] end.
-      match type of H with (if ?c then _ else _) = _ => destruct c eqn:Ec end.
-      * destruct (IH _ _ (Hsnoc bn Hne HQ) H) as [H1 H2]. split; auto. intros [E|Hin]; [congruence|auto].
-      * destruct (IH _ _ HQ H) as [H1 H2]. split; auto. intros [E|Hin]; [congruence|auto].
+  intros Hbase. induction bns as [|bn r IH]; simpl; intros J J' Hin H; [destruct Hin|].
+  destruct (Nat.eq_dec bn b) as [->|Hne].
+  - match type of H with match ?bad with _ => _ end = _ => destruct bad; [discriminate|] end.
+    match type of H with (if ?c then _ else _) = _ => destruct c eqn:Ec end.
+    + eapply precheck_link_mono; [|exact H].
+      exists (length J). unfold groundLink, link. rewrite app_length, app_nth2, Nat.sub_diag by auto. simpl.
+      repeat split; auto. lia.
+    + eapply precheck_link_mono; [|exact H]. apply treeJoint_true.
+      rewrite Hbase in Ec. simpl in Ec. apply orb_false_iff in Ec. destruct Ec as [_ Ec]. apply negb_false_iff in Ec. exact Ec.
+  - destruct Hin as [E|Hin]; [congruence|].
+    match type of H with match ?bad with _ => _ end = _ => destruct bad; [discriminate|] end.
+    match type of H with (if ?c then _ else _) = _ => destruct c end; eapply IH; eauto.
 Qed.
 
 (* ------------------------------------------------------------------ the first level-1 sweep reaches the Ground joint *)
